@@ -397,8 +397,8 @@ void ep4_mul_sim_dig(ep4_t r, const ep4_t p[], const dig_t k[], size_t len) {
 
 	ep4_null(t);
 
-	max = util_bits_dig(k[0]);
-	for (int i = 1; i < len; i++) {
+	max = 0;
+	for (int i = 0; i < len; i++) {
 		max = RLC_MAX(max, util_bits_dig(k[i]));
 	}
 
